@@ -154,7 +154,7 @@ def canon_target(uri, mode=None):
 def canon_params(pairs):
     out = []
     for k, v in pairs:
-        if k in ("error", "state", "token_type"):
+        if k in ("error", "state", "token_type", "iss"):
             out.append([k, v])
         elif k in LABEL:
             out.append([k, LABEL[k]])
@@ -169,7 +169,8 @@ def canon_response(r):
         qp = [(k, v) for k, v in parse_qsl(u.query, keep_blank_values=True)]
         fp = [(k, v) for k, v in parse_qsl(u.fragment, keep_blank_values=True)] if "=" in u.fragment else []
         if any(k in PROTO for k, _ in fp):
-            mode, params = "fragment", [(k, v) for k, v in fp if k in PROTO]
+            # (the RFC 9207 hook appends iss to the URL's query also when the response parameters travel in the fragment)
+            mode, params = "fragment", [(k, v) for k, v in fp if k in PROTO] + [(k, v) for k, v in qp if k == "iss"]
         else:
             mode, params = "query", [(k, v) for k, v in qp if k in PROTO]
         return {"redirect": {"target": canon_target(loc), "mode": mode, "params": canon_params(params)}, "_location": loc, "_all": qp if mode == "query" else fp}
@@ -233,7 +234,10 @@ def model_line(c):
     cfg = {"grants": ["code", "oidc_implicit", "hybrid", "implicit"], "scopes_supported": c["supported"], "oidc_code_ext": True, "require_nonce": c["require_nonce"],
            "clients": [{"id": cl["id"], "uris": cl["uris"], "response_types": cl["response_types"], "method": cl["method"]} for cl in CLIENTS],
            "used_nonces": [[cl["id"], "used"] for cl in CLIENTS]}
-    return {"op": c["op"], "cfg": cfg, "req": r, "approve": c["approve"], "user": c["user"]}
+    line = {"op": c["op"], "cfg": cfg, "req": r, "approve": c["approve"], "user": c["user"]}
+    if c.get("issuer") and c["op"] == "respond":
+        line["issuer"] = ISSUER
+    return line
 
 
 def project_one(out):
